@@ -10,7 +10,7 @@ fn succ(y: i32, m: u32, d: u32) -> (i32, u32, u32) {
 }
 /// the closed-form day count advances by exactly one from each valid date to its calendar successor
 pub fn oracle_rd_succ_holds(y: i32, m: u32, d: u32) {
-    assume(y >= -5_879_613 && y <= 5_879_613);
+    assume(y >= -5_879_613); assume(y <= 5_879_613);
     assume(spec_valid(y, m, d));
     let (y2, m2, d2) = succ(y, m, d);
     assert!(spec_valid(y2, m2, d2));
@@ -18,8 +18,8 @@ pub fn oracle_rd_succ_holds(y: i32, m: u32, d: u32) {
 }
 /// strictly monotone in lexicographic order on valid triples (hence injective: one valid date per day)
 pub fn oracle_rd_monotone_holds(y1: i32, m1: u32, d1: u32, y2: i32, m2: u32, d2: u32) {
-    assume(y1 >= -5_879_613 && y1 <= 5_879_613 && y2 >= -5_879_613 && y2 <= 5_879_613);
-    assume(spec_valid(y1, m1, d1) && spec_valid(y2, m2, d2));
+    assume(y1 >= -5_879_613); assume(y1 <= 5_879_613); assume(y2 >= -5_879_613); assume(y2 <= 5_879_613);
+    assume(spec_valid(y1, m1, d1)); assume(spec_valid(y2, m2, d2));
     assume(y1 < y2 || (y1 == y2 && (m1 < m2 || (m1 == m2 && d1 < d2))));
     assert!(spec_rd(y1, m1, d1) < spec_rd(y2, m2, d2));
 }
@@ -37,13 +37,13 @@ pub fn oracle_rd_anchors_holds(z: u8) {
 }
 /// year length agrees with the distance between consecutive 1 Januaries
 pub fn oracle_ylen_holds(y: i32) {
-    assume(y >= -5_879_613 && y <= 5_879_612 && y != 0);
+    assume(y >= -5_879_613); assume(y <= 5_879_612); assume(y != 0);
     let ny = if y == -1 { 1 } else { y + 1 };
     assert!(spec_rd(ny, 1, 1) - spec_rd(y, 1, 1) == spec_ylen(y));
 }
 /// the triple-based weekday and day-of-year forms agree with the closed-form day count
 pub fn oracle_wd_ymd_holds(y: i32, m: u32, d: u32) {
-    assume(y >= -5_879_613 && y <= 5_879_613);
+    assume(y >= -5_879_613); assume(y <= 5_879_613);
     assume(spec_valid(y, m, d));
     assert!(spec_iso_wd_ymd(y, m, d) == spec_iso_wd(spec_rd(y, m, d)));
     assert!(spec_doy(y, m, d) == spec_rd(y, m, d) - spec_rd(y, 1, 1) + 1);
